@@ -10,6 +10,7 @@ import BSVerif.Driver.Load
 import BSVerif.Driver.Cont
 import BSVerif.Driver.Valid
 import BSVerif.Driver.Adapter
+import BSVerif.Driver.Chrono
 
 namespace BSVerif.Driver
 
@@ -29,6 +30,7 @@ def dispatch (toks : List String) (impl : Option String) : Option (String × Str
     else if t.startsWith "cont." then Cont.handle toks impl
     else if t.startsWith "val." then Valid.handle toks impl
     else if t.startsWith "json." || t.startsWith "xml." then Adapter.handle toks impl
+    else if t.startsWith "iso." || t.startsWith "bin." then Chrono.handle toks impl
     else none
 
 end BSVerif.Driver
